@@ -21,13 +21,17 @@ def gen_case(rng):
     for _ in range(rng.randint(1, 4)):
         v = rng.choice(pool)
         k = rng.choice(["plain", "arith", "list", "quoted", "bq", "dotted", "let", "inner", "setq", "setqret", "cond",
-                        "bqdot", "bqnest", "bqdeep", "fnq", "dolist", "mapcar", "andor", "when", "vecq", "dotcall"])
+                        "bqdot", "bqnest", "bqdeep", "bqquote", "bqquote2", "shadowparam", "shadowparam2", "fnq", "dolist", "mapcar", "andor", "when", "vecq", "dotcall"])
         if k == "plain": uses.append(v)
         elif k == "arith": uses.append("(if (numberp %s) (+ %s 1) %s)" % (v, v, v))
         elif k == "list": uses.append("(list %s (list %s))" % (v, v))
         elif k == "quoted": uses.append("'(%s . %s)" % (v, v))
         elif k == "bq": uses.append("`(%s ,%s ,@(list %s))" % (v, v, v))
         elif k == "dotted": uses.append("(quote (1 . %s))" % v)
+        elif k == "bqquote": uses.append("`(k ,%s ',%s (b ',%s) '(q ,@(list %s)) #',%s)" % (v, v, v, v, v))
+        elif k == "bqquote2": uses.append("`',%s" % v)
+        elif k == "shadowparam": uses.append("(mapcar (lambda (%s) (list %s 'in)) (list 1 2))" % (v, v))          # an inner lambda's own parameter named like a captured variable
+        elif k == "shadowparam2": uses.append("(funcall (lambda (%s) (setq %s (list %s 'assigned)) %s) 'inner-arg)" % (v, v, v, v))
         elif k == "bqdot": uses.append("`(%s . ,%s)" % (v, v))
         elif k == "bqnest": uses.append("`((,%s) (k . ,%s) ,@(list %s) . ,%s)" % (v, v, v, v))
         elif k == "bqdeep": uses.append("`(1 (2 (3 ,%s . ,%s)) ,(list %s `(,%s)))" % (v, v, v, v))
